@@ -195,11 +195,16 @@ def run(ctx):
                 ctx.violated(r3, f, f"join == {arm!r}", f"{q} has no `{arm}` arm: {lname} with clashing names are joined without any check", node=f.node)
                 continue
             body = A.unparse(ast.Module(body=n.body, type_ignores=[]))
-            for c_ in [x for st in n.body for x in ast.walk(st) if isinstance(x, ast.Call) and isinstance(x.func, ast.Name)]:
-                kind_, obj_ = repo.resolve_name(m, c_.func.id)
-                if kind_ == "func" and obj_.module is m:
-                    body += "\n" + A.unparse(obj_.node)  # a module-level helper the arm computes its clash list with
             has_raise = [r for st in n.body for r in ast.walk(st) if isinstance(r, ast.Raise)]
+            seen_h, todo_h = set(), [x for st in n.body for x in ast.walk(st) if isinstance(x, ast.Call) and isinstance(x.func, ast.Name)]
+            while todo_h and len(seen_h) < 6:
+                c_ = todo_h.pop()
+                kind_, obj_ = repo.resolve_name(m, c_.func.id)
+                if kind_ == "func" and obj_.module is m and obj_.qualname not in seen_h:
+                    seen_h.add(obj_.qualname)
+                    body += "\n" + A.unparse(obj_.node)  # a module-level helper the arm computes its clash list with / refuses through
+                    has_raise += [r for r in ast.walk(obj_.node) if isinstance(r, ast.Raise)]
+                    todo_h += [x for x in ast.walk(obj_.node) if isinstance(x, ast.Call) and isinstance(x.func, ast.Name)]
             needs = ("intersection" in body or " & " in body) if arm == "none" else ("Counter" in body or "count" in body or "len(" in body)
             if has_raise and all(_exc(r) == "InvalidWorkspaceOperation" for r in has_raise) and needs:
                 ctx.holds(r3, f"{WS}::{q} [{arm}]", f"{what}-based conflict check raises InvalidWorkspaceOperation")
@@ -233,6 +238,9 @@ def run(ctx):
     want = {"_join_versions": "version", "_join_channels": "channels", "_join_observations": "observations", "_join_measurements": "measurements"}
     for nm, sec in want.items():
         a = called.get(nm)
+        takes_join = nm in m.funcs and "join" in A.params_of(m.funcs[nm].node)
+        if a and not takes_join and a == [f"left['{sec}']", f"right['{sec}']"]:
+            a = ["join"] + a  # the helper has no use for the mode (versions either agree or they do not)
         if a and a[0] == "join" and a[1] == f"left['{sec}']" and a[2] == f"right['{sec}']":
             ctx.holds(r3, f"{WS}::Workspace.combine -> {nm}", f"(join, left['{sec}'], right['{sec}'])")
         else:
